@@ -128,5 +128,195 @@ Section Energy.
   Definition additive (phi : field F) : Prop := forall a m, length a = D -> length m = D -> phi a + phi m + phi (refl a m) = 0.
 
   Lemma dc_additive ii s c : additive (dc F ii s c).
-  Proof. intros a m Ha Hm. unfold dc. rewrite refl_nth by lia. rewrite !fz_sub_local. ring. Qed.
+  Proof. intros a m Ha Hm. unfold dc. rewrite refl_nth by lia. rewrite !fz_sub, fz_opp. ring. Qed.
+
+  Lemma fsumf_additive (l : list (field F)) : Forall additive l -> additive (fsumf F l).
+  Proof.
+    intros H a m Ha Hm. unfold fsumf. rewrite <- !fsum_map_add.
+    rewrite (fsum_map_ext F _ _ (fun _ => 0)); [apply fsum_map_zero|].
+    intros f Hf. rewrite Forall_forall in H. apply (H f Hf); assumption.
+  Qed.
+
+  (* integration by parts: moving a derivative symbol through the three slots *)
+  Lemma T3_by_parts phi f g h : additive phi ->
+    T3 (fun k => phi k * f k) g h + T3 f (fun k => phi k * g k) h + T3 f g (fun k => phi k * h k) = 0.
+  Proof.
+    intros Hphi. unfold T3. rewrite <- !fsum_map_add. rewrite (fsum_map_ext F _ _ (fun _ => 0)); [apply fsum_map_zero|].
+    intros a Ha. rewrite <- !fsum_map_add. rewrite (fsum_map_ext F _ _ (fun _ => 0)); [apply fsum_map_zero|].
+    intros m Hm. apply (in_bandD D Kc _ K_nonneg) in Ha, Hm.
+    transitivity ((phi a + phi m + phi (refl a m)) * (f a * g m * h (refl a m))); [ring|].
+    rewrite (Hphi a m) by tauto. ring.
+  Qed.
+
+  Let three_nz : @fz F 3 <> 0. Proof. apply fz_neq0. discriminate. Qed.
+
+  (* the fully symmetric case: sum over triples of phi(one slot) u u u vanishes *)
+  Lemma T3_cubic_zero phi u : additive phi -> masked u ->
+    T3 (fun k => phi k * u k) u u = 0 /\ T3 u u (fun k => phi k * u k) = 0.
+  Proof.
+    intros Hphi Hu. pose proof (T3_by_parts phi u u u Hphi) as H.
+    assert (Hpu : masked (fun k => phi k * u k)) by (apply masked_mul; exact Hu).
+    assert (E2 : T3 u (fun k => phi k * u k) u = T3 (fun k => phi k * u k) u u) by apply T3_swap12.
+    assert (E3 : T3 u u (fun k => phi k * u k) = T3 (fun k => phi k * u k) u u).
+    { rewrite (T3_swap23 u u (fun k => phi k * u k) Hu Hpu). exact E2. }
+    rewrite E2, E3 in H.
+    assert (H3 : fz 3 * T3 (fun k => phi k * u k) u u = 0) by (cbn [fz fpos]; rewrite <- H; ring).
+    apply (fmul_eq0 F) in H3. destruct H3 as [H3|H3]; [contradiction|]. split; [exact H3 | rewrite E3; exact H3].
+  Qed.
+
+  (* pairing <f, g> = sum_k f(-k) g(k) over the band *)
+  Definition pairing (f g : field F) : F := fsum (map (fun k => f (negi k) * g k) B).
+
+  Lemma pairing_prod2 (f U V : field F) : pairing f (prod2 F D N Kc U V) = nfac F D N * T3 f (msk F Kc U) (msk F Kc V).
+  Proof.
+    unfold pairing, T3. rewrite (band_reindex F D Kc K_nonneg). rewrite <- fsum_map_scal. apply fsum_map_ext. intros a Ha.
+    apply (in_bandD D Kc _ K_nonneg) in Ha. destruct Ha as [Hla Hba].
+    rewrite negi_invol, (prod2_alias_free F D N Kc N_pos K_nonneg U V (negi a) K_small). unfold prod2L, msk at 1.
+    rewrite in_band_negi, Hba. unfold lconv2. rewrite <- !fsum_map_scal. apply fsum_map_ext. intros m _. unfold refl. ring.
+  Qed.
+
+  Lemma pairing_scal_r c f g : pairing f (fun k => c * g k) = c * pairing f g.
+  Proof. unfold pairing. rewrite <- fsum_map_scal. apply fsum_map_ext. intros; ring. Qed.
+  Lemma pairing_add_r f g g' : pairing f (fun k => g k + g' k) = pairing f g + pairing f g'.
+  Proof. unfold pairing. rewrite <- fsum_map_add. apply fsum_map_ext. intros; ring. Qed.
+  Lemma pairing_mul_r (p f g : field F) : pairing f (fun k => p k * g k) = pairing (fun k => p (negi k) * f k) g.
+  Proof. unfold pairing. apply fsum_map_ext. intros k _. rewrite negi_invol. ring. Qed.
+  Lemma pairing_ext_r f g g' : (forall k, g k = g' k) -> pairing f g = pairing f g'.
+  Proof. intros H. unfold pairing. apply fsum_map_ext. intros k _. rewrite H. reflexivity. Qed.
+
+  Variables (ii s : F).
+
+  Lemma pairing_fsumf f (l : list (field F)) : pairing f (fsumf F l) = fsum (map (pairing f) l).
+  Proof.
+    induction l as [|g l IH]; cbn [map fsum].
+    - unfold pairing, fsumf. cbn [map fsum]. rewrite (fsum_map_ext F _ _ (fun _ => 0)); [apply fsum_map_zero | intros; ring].
+    - rewrite <- IH. rewrite <- pairing_add_r. apply pairing_ext_r. intros k. reflexivity.
+  Qed.
+
+  Lemma T3_swap13 f g h : masked f -> masked h -> T3 f g h = T3 h g f.
+  Proof. intros Hf Hh. rewrite (T3_swap12 f g h), (T3_swap23 g f h Hf Hh). apply T3_swap12. Qed.
+  Lemma T3_scal2 c f g h : T3 f (fun k => c * g k) h = c * T3 f g h.
+  Proof. rewrite T3_swap12, T3_scal1, (T3_swap12 g f h). reflexivity. Qed.
+
+  Lemma msk_mul (p u : field F) k : msk F Kc (fmulp F p u) k = p k * msk F Kc u k.
+  Proof. unfold msk, fmulp. destruct (in_band Kc k); ring. Qed.
+
+  (* ---- Burgers-type convection, single channel ---- *)
+  Definition phi_sum : field F := fsumf F (map (dc F ii s) (axes D)).
+  Lemma phi_sum_additive : additive phi_sum.
+  Proof. apply fsumf_additive. apply Forall_forall. intros f Hf. apply in_map_iff in Hf. destruct Hf as (c & <- & _). apply dc_additive. Qed.
+  Lemma phi_sum_odd k : phi_sum (negi k) = - phi_sum k.
+  Proof.
+    unfold phi_sum, fsumf. rewrite !map_map. transitivity (fsum (map (fun c => - (1) * dc F ii s c k) (axes D))).
+    - apply fsum_map_ext. intros c _. rewrite dc_negi. ring.
+    - rewrite fsum_map_scal. ring.
+  Qed.
+
+  (* conservative form -b/2 (1.grad)(u^2): no work on u, for every state (the products mask their inputs) *)
+  Theorem conv_sc_cons_no_work (b : F) (u : field F) :
+    pairing (msk F Kc u) (conv_sc_cons F (prod2 F D N Kc) ii s D b u) = 0.
+  Proof.
+    unfold conv_sc_cons.
+    change (pairing (msk F Kc u) (fun k => - b * (half F * (phi_sum k * prod2 F D N Kc u u k))) = 0).
+    rewrite (pairing_scal_r (- b)), (pairing_scal_r (half F)), (pairing_mul_r phi_sum), pairing_prod2.
+    rewrite (T3_ext _ (fun k => - (1) * (phi_sum k * msk F Kc u k)) _ (msk F Kc u) _ (msk F Kc u)); try reflexivity.
+    - rewrite T3_scal1. destruct (T3_cubic_zero phi_sum (msk F Kc u) phi_sum_additive (masked_msk u)) as [H _]. rewrite H. ring.
+    - intros k _. rewrite phi_sum_odd. ring.
+  Qed.
+
+  (* non-conservative form -b u (1.grad) u *)
+  Theorem conv_sc_noncons_no_work (b : F) (u : field F) :
+    pairing (msk F Kc u) (conv_sc_noncons F (prod2 F D N Kc) ii s D b u) = 0.
+  Proof.
+    unfold conv_sc_noncons.
+    change (pairing (msk F Kc u) (fun k => - b * fsumf F (map (fun c => prod2 F D N Kc u (fmulp F (dc F ii s c) u)) (axes D)) k) = 0).
+    rewrite (pairing_scal_r (- b)), pairing_fsumf, map_map.
+    rewrite (fsum_map_ext F _ _ (fun _ => 0)); [rewrite fsum_map_zero; ring|].
+    intros c _. rewrite pairing_prod2.
+    rewrite (T3_ext _ (msk F Kc u) _ (msk F Kc u) _ (fun k => dc F ii s c k * msk F Kc u k)); try reflexivity.
+    - destruct (T3_cubic_zero (dc F ii s c) (msk F Kc u) (dc_additive ii s c) (masked_msk u)) as [_ H]. rewrite H. ring.
+    - intros k. apply msk_mul.
+  Qed.
+
+  (* ---- 2D vorticity convection: enstrophy and energy ---- *)
+  Lemma T3_sym_deriv phi f g : additive phi -> masked f -> masked g ->
+    fz 2 * T3 f g (fun k => phi k * f k) = - T3 f (fun k => phi k * g k) f.
+  Proof.
+    intros Hphi Hf Hg. pose proof (T3_by_parts phi f g f Hphi) as H.
+    rewrite (T3_swap13 (fun k => phi k * f k) g f (masked_mul phi f Hf) Hf) in H.
+    cbn [fz fpos]. transitivity (- T3 f (fun k => phi k * g k) f + (T3 f g (fun k => phi k * f k) + T3 f (fun k => phi k * g k) f + T3 f g (fun k => phi k * f k))); [ring | rewrite H; ring].
+  Qed.
+
+  Let two_nz : @fz F 2 <> 0. Proof. apply fz_neq0. discriminate. Qed.
+
+  Section Vorticity.
+    Variable lam : field F.          (* stream-function multiplier, e.g. where(lap == 0, 1, 1/lap) *)
+    Variable w : field F.
+    Let d0 := dc F ii s 0.
+    Let d1 := dc F ii s 1.
+    Let mw := msk F Kc w.
+    Let psi := fun k => lam k * mw k.          (* masked stream function *)
+    Let Hmw : masked mw. Proof. apply masked_msk. Qed.
+    Let Hpsi : masked psi. Proof. apply masked_mul. exact Hmw. Qed.
+
+    Definition vort_term : field F :=
+      fadd F (prod2 F D N Kc (fmulp F d1 (fmulp F lam w)) (fmulp F d0 w))
+             (prod2 F D N Kc (fscal F (- (1)) (fmulp F d0 (fmulp F lam w))) (fmulp F d1 w)).
+
+    Lemma pairing_vort f : pairing f vort_term
+      = nfac F D N * (T3 f (fun k => d1 k * psi k) (fun k => d0 k * mw k) - T3 f (fun k => d0 k * psi k) (fun k => d1 k * mw k)).
+    Proof.
+      unfold vort_term, fadd.
+      rewrite pairing_add_r, !pairing_prod2.
+      rewrite (T3_ext f f (msk F Kc (fmulp F d1 (fmulp F lam w))) (fun k => d1 k * psi k) (msk F Kc (fmulp F d0 w)) (fun k => d0 k * mw k)); try reflexivity.
+      2: { intros k _. rewrite msk_mul, msk_mul. reflexivity. }
+      2: { intros k. apply msk_mul. }
+      rewrite (T3_ext f f (msk F Kc (fscal F (- (1)) (fmulp F d0 (fmulp F lam w)))) (fun k => - (1) * (d0 k * psi k)) (msk F Kc (fmulp F d1 w)) (fun k => d1 k * mw k)); try reflexivity.
+      2: { intros k _. unfold msk, fscal, fmulp, psi, mw, msk. destruct (in_band Kc k); ring. }
+      2: { intros k. apply msk_mul. }
+      rewrite T3_scal2. ring.
+    Qed.
+
+    (* enstrophy: <w, u.grad w> = 0 *)
+    Theorem vorticity_no_enstrophy_work : pairing mw vort_term = 0.
+    Proof.
+      rewrite pairing_vort.
+      pose proof (T3_sym_deriv d0 mw (fun k => d1 k * psi k) (dc_additive ii s 0) Hmw (masked_mul d1 psi Hpsi)) as H0.
+      pose proof (T3_sym_deriv d1 mw (fun k => d0 k * psi k) (dc_additive ii s 1) Hmw (masked_mul d0 psi Hpsi)) as H1.
+      cbv beta in H0, H1.
+      assert (E : T3 mw (fun k => d0 k * (d1 k * psi k)) mw = T3 mw (fun k => d1 k * (d0 k * psi k)) mw).
+      { apply T3_ext; try reflexivity. intros; ring. }
+      rewrite E in H0.
+      assert (H : fz 2 * (T3 mw (fun k => d1 k * psi k) (fun k => d0 k * mw k) - T3 mw (fun k => d0 k * psi k) (fun k => d1 k * mw k)) = 0).
+      { transitivity (fz 2 * T3 mw (fun k => d1 k * psi k) (fun k => d0 k * mw k) - fz 2 * T3 mw (fun k => d0 k * psi k) (fun k => d1 k * mw k)); [ring|].
+        rewrite H0, H1. ring. }
+      apply (fmul_eq0 F) in H. destruct H as [H|H]; [contradiction|]. rewrite H. ring.
+    Qed.
+
+    (* energy: <psi, u.grad w> = 0 *)
+    Theorem vorticity_no_energy_work : pairing psi vort_term = 0.
+    Proof.
+      rewrite pairing_vort.
+      pose proof (T3_by_parts d0 psi (fun k => d1 k * psi k) mw (dc_additive ii s 0)) as H0.
+      pose proof (T3_by_parts d1 psi (fun k => d0 k * psi k) mw (dc_additive ii s 1)) as H1.
+      cbv beta in H0, H1.
+      assert (E : T3 psi (fun k => d0 k * (d1 k * psi k)) mw = T3 psi (fun k => d1 k * (d0 k * psi k)) mw).
+      { apply T3_ext; try reflexivity. intros; ring. }
+      rewrite E in H0. rewrite (T3_swap12 (fun k => d0 k * psi k) (fun k => d1 k * psi k) mw) in H0.
+      transitivity (nfac F D N * ((T3 (fun k => d1 k * psi k) (fun k => d0 k * psi k) mw + T3 psi (fun k => d1 k * (d0 k * psi k)) mw + T3 psi (fun k => d1 k * psi k) (fun k => d0 k * mw k))
+                                  - (T3 (fun k => d1 k * psi k) (fun k => d0 k * psi k) mw + T3 psi (fun k => d1 k * (d0 k * psi k)) mw + T3 psi (fun k => d0 k * psi k) (fun k => d1 k * mw k)))); [ring|].
+      rewrite H0, H1. ring.
+    Qed.
+  End Vorticity.
+
+  (* the model term of Nonlin/Terms.v is -b times vort_term with lam = where(lap == 0, 1, 1/lap) *)
+  Theorem vorticity_conv_no_work (b : F) (w : field F) :
+    let lam := inv_lap_one F ii s D in
+    pairing (msk F Kc w) (vorticity_conv F (prod2 F D N Kc) ii s D b w) = 0
+    /\ pairing (fun k => lam k * msk F Kc w k) (vorticity_conv F (prod2 F D N Kc) ii s D b w) = 0.
+  Proof.
+    intros lam. unfold vorticity_conv. cbv zeta.
+    change (pairing (msk F Kc w) (fun k => - b * vort_term lam w k) = 0 /\ pairing (fun k => lam k * msk F Kc w k) (fun k => - b * vort_term lam w k) = 0).
+    rewrite !pairing_scal_r, vorticity_no_enstrophy_work, vorticity_no_energy_work. split; ring.
+  Qed.
 End Energy.
